@@ -366,7 +366,12 @@ def ens_begin(self, n_addr, exc):
 
 
 def abs_begin(self, n_addr):
-    require(valid_node(n_addr), "_begin: valid node address")
+    require(req_begin(self, n_addr), "_begin: valid node address, radio invariant, dynamic payloads on (C07.begin's precondition)")
+    begin_effects(self, n_addr)
+
+
+def begin_effects(self, n_addr):
+    """footprint + assumed post of _begin (its contract is C07.begin)"""
     havoc_radio_io(self)
     havoc_tx_cfg(self)
     r = self._rf24
@@ -398,6 +403,26 @@ def req_node(self):
 def req_node_addr(self, val):
     """a reserved multicast address is not a node address (assigning one is outside the claim)"""
     return req_update(self) and (val is None or valid_node(val) or not valid_address(val))
+
+
+def req_node_addr_any_state(self, val):
+    """the assignment must re-establish the listening state from ANY radio state the object can be
+    in (TX mode, powered down, prefix/suffix changed since): only _begin's own precondition"""
+    r = self._rf24
+    g = r._spi.hw.reg
+    return (inv(r) and g[0x1C] == 0x3F and (g[0x1D] & 4) != 0 and r._spi.hw.ce_log == 0
+            and self.max_message_length >= 24 and self.max_message_length <= 6000
+            and (val is None or valid_node(val) or not valid_address(val)))
+
+
+def ens_node_addr(self, old_self, val, exc):
+    """a valid address: the node listens on it (whatever the radio was doing before, also when the
+    address is the one it already had); anything else: rejected, nothing changes"""
+    if exc is not None:
+        return False
+    if val is not None and valid_node(val):
+        return node_ok(self) and self._addr == val
+    return self._addr == old_self._addr and implies(node_ok(old_self), node_ok(self))
 
 
 def req_mc_level(self, lvl):
@@ -491,7 +516,7 @@ CONTRACTS = [
              requires=[R + "req_net_write"], ensures=[("listening", R + "ens_node_ok_or_raise")],
              raises=("ValueError", "AttributeError", "TypeError"), policy=POL_PUB, props=["C07"], replayable=False),
     Contract("C07.node_address.set", "rf24_network:RF24NetworkRoutingOnly.node_address.setter", {"self": net_schema(), "val": OneOf(Int(), Const(None))},
-             requires=[R + "req_node_addr"], ensures=[("listening", R + "ens_listening_any_addr")], raises=(), policy=POL_PUB, props=["C07"], replayable=False),
+             requires=[R + "req_node_addr_any_state"], ensures=[("listening", R + "ens_node_addr")], raises=(), policy=POL_PUB, props=["C07"], replayable=False),
 ]
 
 
